@@ -39,7 +39,7 @@ pub fn check(case: &Case, st: &mut Stats) -> Result<(), String> {
         Case::Xml { chunks, exact_errors, .. } => {
             let sink = ModelDom::new();
             let cfg = XmlCfg { exact_errors: *exact_errors, discard_bom: true, profile: false };
-            let (dom, _left) = drive_xml(sink, &cfg, chunks, |_| {});
+            let (dom, _left) = drive_xml(sink, &cfg, chunks, |_, _| {});
             dom
         },
     };
@@ -90,7 +90,7 @@ pub fn run(ctx: &Ctx) -> Report {
     rep.assume("the clauses are those written in markup5ever/interface/tree_builder.rs doc comments plus the property statement");
     report_known(ctx, &mut rep, &|v| replay(&ctx.strict_clone(), v));
     run_regressions(ctx, &mut rep, &|v| replay(&ctx.strict_clone(), v));
-    let out = run_random(ctx.seed, ctx.tier.pick(300_000, 15_000_000), 1500, decode, |c, st| {
+    let out = run_random(ctx.seed, ctx.tier.pick(3_000_000, 40_000_000), 1500, decode, |c, st| {
         if ctx.tolerate("KF-C05-xml-two-doctypes") {
             if let Case::Xml { text, .. } = c {
                 if text.matches("<!DOCTYPE").count() + text.matches("<!doctype").count() >= 2 {
